@@ -90,6 +90,7 @@ inductive GOp
   | unblind (cfg : TrialCfg)
   | unblindAdopt (cfg : TrialCfg)
   | evaluate (fields : List (Name × Col))
+  | resetCache      -- MCDataSamplingBkgGenMethod.change_shg_mgr / a new data id: the MC cache is invalidated
   deriving Repr
 
 def setItems (c : Nat) (sets : List (Name × Col)) : List Op := sets.map fun p => .setItem c p.1 p.2
@@ -161,6 +162,7 @@ def compile (n0 : Nat) (r : Roles) : GOp → List Op × Roles × Option Nat
     match r.events with
     | some ev => (setItems ev fields, r, none)
     | none => ([], r, none)
+  | .resetCache => ([], { r with cache := none }, none)
 
 structure G where
   st : St
